@@ -66,6 +66,46 @@ def effect_calls(fn):
     return live_calls(fn, include_transparent=False)
 
 
+_TRY = {"Option": {"Continue": "Some", "Break": "None"}, "Result": {"Continue": "Ok", "Break": "Err"}}
+
+
+def _try_kind(t):
+    t = strip(t)
+    if t and t[0] == "call" and isinstance(t[2] or t[1], str) and last_seg(t[2] or t[1]) == "branch" and len(t[3]) == 1:
+        r = t[2] or ""
+        return "Option" if "option::Option as" in r else "Result" if "result::Result as" in r else None
+    return None
+
+
+def norm_guard(p):
+    """(tree, value) of a guard with the `?` desugaring folded: branch(x) == Continue/Break becomes x == Some/None (Ok/Err)."""
+    k = _try_kind(p.tree)
+    if k and p.val in ("Continue", "Break"):
+        return simp(strip(p.tree)[3][0]), _TRY[k][p.val]
+    return simp(p.tree), p.val
+
+
+def simp(t):
+    """strip() plus projection folding: field k of a tuple / struct aggregate built in place is the k-th operand (what a helper
+    that returns a pair looks like once it has been inlined)."""
+    t = strip(t)
+    if not isinstance(t, tuple) or not t:
+        return t
+    if t[0] == "field":
+        b = simp(t[1])
+        if b and b[0] == "agg" and b[1][0] == "tuple" and str(t[2]).isdigit() and int(t[2]) < len(b[2]):
+            return simp(b[2][int(t[2])])
+        return ("field", b) + tuple(t[2:])
+    # the `?` operator: Try::branch(x) as Continue  ==  x as Some / Ok ;  from_residual(..) of an Option  ==  None
+    if t[0] == "variant" and len(t) >= 3:
+        k = _try_kind(t[1])
+        if k and t[2] in ("Continue", "Break"):
+            return ("variant", simp(strip(t[1])[3][0]), _TRY[k][t[2]]) + tuple(t[3:])
+    if t[0] == "call" and isinstance(t[2] or t[1], str) and last_seg(t[2] or t[1]) == "from_residual" and "option::Option as" in (t[2] or ""):
+        return ("agg", ("adt", "std::option::Option", "None", ()), ())
+    return tuple(simp(x) if isinstance(x, tuple) and x and isinstance(x[0], str) else (tuple(simp(y) if isinstance(y, tuple) and y and isinstance(y[0], str) else y for y in x) if isinstance(x, tuple) else x) for x in t)
+
+
 def is_pure_getter(F, q, depth=2):
     """A crate function that only reads: every parameter is a shared reference or a plain value, and every call it makes is
     transparent plumbing or again a pure getter (interior mutation needs an atomic / lock call, which is neither)."""
